@@ -437,8 +437,10 @@ def _finish_execution():
     js, rec = Acc(), Acc()
     scratch = _mkscratch()
     try:
-        arg_pool = [[], ["a"], [1, "a b", True, 0.5]]
-        opt_pool = [{}, {"k": 1}, {"b": 1, "a": "x", "f": False, "r": 2.5}]
+        # strings: plain, non-ASCII, quotes / backslash / newline, and a lone surrogate (what os.fsdecode / sys.argv give
+        # for a byte that is not UTF-8: a legal Python str that a COND file can carry)
+        arg_pool = [[], ["a"], [1, "a b", True, 0.5], ["\u00e9\u4e2d", "q\"b\\c\nd"], ["x\udcff"]]
+        opt_pool = [{}, {"k": 1}, {"b": 1, "a": "x", "f": False, "r": 2.5}, {"\u00fc": "\u00e9", "s": "y\udcfe"}]
         versions = [None, Version(5, "abc", True), Version(1790000000, None, False)]
         codes = [0, 1, 2, 255, -15]
         n = 0
@@ -472,7 +474,8 @@ def _finish_execution():
             handle.stdout = FakeHandler("stdout", log)
             handle.stderr = FakeHandler("stderr", log)
             handle.returncode = code
-            inp = {"args": raw_args, "options": raw_opts, "serialize_args_options": serialize,
+            inp = {"args": [ascii(a) if isinstance(a, str) else a for a in raw_args],
+                   "options": {ascii(k): (ascii(v) if isinstance(v, str) else v) for k, v in raw_opts.items()}, "serialize_args_options": serialize,
                    "version_to_record": None if version is None else repr(version), "returncode": code}
             try:
                 op.finish_execution(handle, ctx)
